@@ -8,6 +8,7 @@ import types
 
 from hypothesis import strategies as st
 
+from jv import hpcsim as _H  # noqa: F401  installs the simulation world's interposition before jade is imported (flow sub-case)
 from jv.props import direct as D
 
 ID = "C18"
@@ -94,8 +95,88 @@ retry_cases = st.fixed_dictionaries({
 })
 
 
+@st.composite
+def flow_cases(draw):
+    """Whole submissions in the simulation world (E1): what JADE *does* with the scheduler's answers."""
+    from jv import gen
+    from jv.props import common as C
+
+    scn = draw(gen.scenarios(min_jobs=2, max_jobs=8, max_groups=2))
+    scn["max_nodes"] = draw(st.sampled_from([None, 1, 1, 2, 3]))
+    return {"kind": "flow", "scn": scn, "schedule": draw(gen.schedules()),
+            "exotic": draw(st.lists(st.fixed_dictionaries({"at": st.integers(10, 400), "steps": st.integers(10, 200),
+                                                           "which": st.integers(0, 7)}), max_size=3)),
+            "late": draw(C.late_ops())}
+
+
 def strategy(tier):
-    return st.one_of(script_cases, status_cases, status_cases, submit_cases, retry_cases)
+    # the flow sub-case is ~100x dearer than the others: one in twelve cases
+    return st.one_of(script_cases, status_cases, status_cases, submit_cases, retry_cases, script_cases, status_cases, status_cases,
+                     submit_cases, retry_cases, status_cases, flow_cases())
+
+
+def run_flow_case(case, res):
+    """A batch is dropped from the recorded active ids only when it is finished or absent: after every release of the
+    cluster lock the recorded hpc_job_ids are compared with the previous ones; an id that disappeared must not belong to a
+    batch that is pending or has a job process running at that very instant."""
+    import sys
+
+    from jv import hpcsim as H
+    from jv import world as W
+    from jv.props import common as C
+
+    v = res["violations"]
+    H.scratch_root()
+    saved = (sys.stdout, sys.stderr)
+    W.install_stdio()
+    try:
+        with H.Sim(case["scn"], schedule=case["schedule"], snapshots=True, exotic=case.get("exotic", ())) as sim:
+            C.install_late_ops(sim, case.get("late"))
+            sim.submit()
+            outcome = sim.drive()
+            if outcome == "budget":
+                res["inconclusive"] = "step-budget"
+            prev = None
+            drops = 0
+            for s in sim.w.snaps:
+                try:
+                    ids = set(json.loads(s["files"]["job_status.json"] or "null")["hpc_job_ids"])
+                except (TypeError, ValueError, KeyError):
+                    prev = None
+                    continue
+                try:
+                    holder = json.loads(s["files"]["cluster_config.json"] or "null")["submitter"]
+                except (TypeError, ValueError, KeyError):
+                    holder = "?"
+                if holder is None and not s.get("sublock"):
+                    # nobody holds the role and no round is in progress: every batch that is alive for certain is recorded
+                    # (a batch reaped as "finished" right after its sbatch never makes it into the records)
+                    unrecorded = sorted(set(s.get("alive", [])) - ids)
+                    if unrecorded:
+                        v.append(D.viol("C18:live-batch-treated-as-finished|never-recorded", f"after the round ending with the lock "
+                                        f"release by {s['by']} the scheduler held batch id(s) {unrecorded} (pending, or a job process "
+                                        f"running at that instant) that are not among the recorded active ids {sorted(ids)}"))
+                        break
+                if prev is not None:
+                    gone = prev - ids
+                    drops += len(gone)
+                    bad = sorted(gone & set(s.get("alive", [])))
+                    if bad:
+                        v.append(D.viol("C18:live-batch-treated-as-finished", f"{s['by']} dropped batch id(s) {bad} from the recorded "
+                                        f"active ids while the scheduler held them pending or with a job process running"))
+                        break
+                prev = ids
+            if sim.w.events("exotic"):
+                res["classes"].append("flow_batch_shown_in_unusual_state")
+            res["classes"].append("flow_max_nodes:" + str(case["scn"]["max_nodes"]))
+            res["nontrivial"] = drops >= 2
+            if res["nontrivial"] or v:
+                res["sample"] = {"kind": "flow", "jobs": len(case["scn"]["jobs"]), "max_nodes": case["scn"]["max_nodes"],
+                                 "ids_dropped": drops, "log": sim.w.abridged_log(30)}
+            if v:
+                res["replay_log"] = sim.w.abridged_log(150)
+    finally:
+        sys.stdout, sys.stderr = saved
 
 
 def _slurm_config(case):
@@ -414,7 +495,8 @@ def run_case(case):
     if case["kind"].startswith("fuzz_"):
         run_fuzz_case(case, res)
         return res
-    {"script": run_script_case, "status": run_status_case, "submit": run_submit_case, "retry": run_retry_case}[case["kind"]](case, res)
+    {"script": run_script_case, "status": run_status_case, "submit": run_submit_case, "retry": run_retry_case,
+     "flow": run_flow_case}[case["kind"]](case, res)
     if not res["nontrivial"] and not res["violations"]:
         res["sample"] = None
     return res
